@@ -119,6 +119,28 @@ func init() {
 			{Pkg: "./zz_verif/wire", Func: "ZZBinaryHeader", Name: "ZZBinaryHeader-anymagic", Params: map[string]int64{"anymagic": 1}, Reach: []string{"loop-returned"}, Bounds: "as quick, first byte symbolic too"},
 			{Pkg: "./zz_verif/wire", Func: "ZZTextLine", Name: "ZZTextLine-9", Params: map[string]int64{"len": 9}, Reach: []string{"loop-returned"}, Bounds: "every 9-byte ASCII command line"},
 		}})
+
+	w7 := func(fn, name string, params map[string]int64, reach []string, bounds string) Job {
+		return Job{Pkg: "./zz_verif/wire", Func: fn, Name: name, Params: params, Reach: reach, Bounds: bounds}
+	}
+	two := []string{"first-parsed", "second-parsed"}
+	reg(Check{ID: "C07", Level: "model_checking", Assumptions: append([]string{
+		"requests are produced by independent encoders written from the protocol description (harness/zz_verif/wire/c07.go); key bytes, data bytes, flags, TTL, opaque are symbolic, lengths are concrete per run",
+		"pipeline of two requests (first: every supported kind, second: set/get/quiet-get+noop/noop), one read boundary at every offset of the stream (A14: the fake socket returns any prefix up to the cut)",
+		"text: keys are printable non-space bytes, numeric fields are symbolic decimal digit strings of the stated digit count (values within 32 bits), data blocks arbitrary bytes incl. CR/LF/0x80; the declared data length is concrete",
+	}, stdAssumptions...),
+		Quick: []Job{
+			w7("ZZBinaryDecode", "binary-k2-d2", map[string]int64{"keylen": 2, "datalen": 2}, two, "24 request kinds x 4 followers x every cut offset; key 2 bytes, data 2 bytes"),
+			w7("ZZTextDecode", "text-k2-d2-3digits", map[string]int64{"keylen": 2, "datalen": 2, "digits": 3}, two, "13 command kinds x 3 followers x every cut offset; key 2 bytes, data 2 bytes, 3-digit numeric fields"),
+			w7("ZZDisambiguate", "", nil, []string{"disambiguated"}, "all 256 first bytes"),
+		},
+		Thorough: []Job{
+			w7("ZZBinaryDecode", "binary-k250-d5", map[string]int64{"keylen": 250, "datalen": 5}, two, "key 250 bytes, data 5 bytes"),
+			w7("ZZBinaryDecode", "binary-k1-d0", map[string]int64{"keylen": 1, "datalen": 0}, two, "key 1 byte, empty data"),
+			w7("ZZBinaryDecode", "binary-set-d4097", map[string]int64{"keylen": 3, "datalen": 4097, "kind1": 0}, two, "set with 4097 data bytes (bufio refill boundary)"),
+			w7("ZZBinaryDecode", "binary-twocuts", map[string]int64{"keylen": 1, "datalen": 1, "twocuts": 1, "kind1": 13}, two, "two cuts, quiet batch GetQ GetQ Noop"),
+			w7("ZZTextDecode", "text-k8-d5-5digits", map[string]int64{"keylen": 8, "datalen": 5, "digits": 5}, two, "key 8, data 5, 5-digit numeric fields"),
+		}})
 }
 
 func itoa(n int64) string { return strconv.FormatInt(n, 10) }
